@@ -302,6 +302,9 @@ def convert_to_utf8(
         tried_encodings.append(proposed_encoding)
         try:
             text = data.decode(proposed_encoding)
+            # A few codecs (utf-7, unicode_escape) decode to lone surrogates,
+            # which are not characters: the data is not in this encoding.
+            text.encode("utf-8")
         except (LookupError, ValueError):
             # UnicodeError is a ValueError; some codecs raise it directly,
             # and a NUL in the codec name is a plain ValueError.
